@@ -45,8 +45,13 @@ HtSet  == {<<"0", FALSE>>, <<"20", FALSE>>, <<"0", TRUE>>}             \* row 1 
 ERow(ht, hid, xf) == {[r |-> 3, ht |-> ht, hid |-> hid, xf |-> xf]}   \* row 3 never holds a cell of the file
 ErSet  == {{}, ERow("0", FALSE, -1), ERow("0", FALSE, 2), ERow("0", TRUE, -1), ERow("20", TRUE, -1)}
           \* none / plain empty / styled empty / hidden empty / hidden with height
-ECol(w, hid, xf) == {[c |-> 2, w |-> w, hid |-> hid, xf |-> xf]}
-CoSet  == {{}, ECol("8.38", FALSE, -1), ECol("8.38", TRUE, -1), ECol("12", FALSE, -1), ECol("8.38", FALSE, 2), ECol("12", TRUE, 2)}
+ECol(w, hid, xf) == {[min |-> 2, max |-> 2, w |-> w, hid |-> hid, xf |-> xf]}
+(* equal declared columns 2 and 4 (hidden / wide / styled): column 3 not declared, declared but different, or equal too *)
+Gap(w, hid, xf)  == {[min |-> 2, max |-> 2, w |-> w, hid |-> hid, xf |-> xf], [min |-> 4, max |-> 4, w |-> w, hid |-> hid, xf |-> xf]}
+GapSets == {Gap("8.38", TRUE, -1), Gap("12", FALSE, -1), Gap("8.38", FALSE, 2),
+            Gap("8.38", TRUE, -1) \cup {[min |-> 3, max |-> 3, w |-> "30", hid |-> FALSE, xf |-> -1]},
+            {[min |-> 2, max |-> 4, w |-> "8.38", hid |-> TRUE, xf |-> -1]}}
+CoSet  == {{}, ECol("8.38", FALSE, -1), ECol("8.38", TRUE, -1), ECol("12", FALSE, -1), ECol("8.38", FALSE, 2), ECol("12", TRUE, 2)} \cup GapSets
 AllFeatures == {Feat(a, b, c, d, e) : a \in SstSet, b \in ExSet, c \in HtSet, d \in ErSet, e \in CoSet}
 Base == Feat(<<"a", "a&b">>, {}, <<"0", FALSE>>, {}, {})
 Differs(x) == (IF x.sst # Base.sst THEN 1 ELSE 0) + (IF x.ex # Base.ex THEN 1 ELSE 0)
